@@ -596,7 +596,22 @@ def gen_parser_steps():
                 ev.append(("call", m.group(2)))
                 i = m.end()
             else:
-                ev.append(("build", m.group(3)))
+                v = m.group(3)
+                # a literal `true` / `false` among the constructor's arguments (the `implicit` flag of Lambda / Pi)
+                flag = ""
+                k = m.end()
+                while k < len(body) and body[k] in " \n\t": k += 1
+                if k < len(body) and body[k] == "(":
+                    depth, j = 0, k
+                    while True:
+                        if body[j] == "(": depth += 1
+                        elif body[j] == ")":
+                            depth -= 1
+                            if depth == 0: break
+                        j += 1
+                    for a in split_top(body[k + 1:j], ","):
+                        if a.strip() in ("true", "false"): flag = " " + a.strip()
+                ev.append(("build", v + flag))
                 i = m.end()
         rows.append((fn, ev))
     if len(rows) != 36: fail(f"arms: parser: {len(rows)} parse functions")
